@@ -5,8 +5,8 @@ from .common import *
 
 LEVEL_TEXT = ("Coq theorems (C19/Props.v) over an interleaving model of ConcurrentCacher (one lock-table slot, any number of callers, any get_set/rmv operation lists, any schedule, getters that fail): "
               "the counter invariant (arr=-1 iff exactly one writer and no reader, arr=r>=0 iff r readers and no writer, an entry is Writing iff exactly one getter runs) is inductive, hence holds in every reachable state; "
-              "corollaries: no partial read, writers exclusive, all locks released when everybody has finished, no deadlock (some caller can always make a non-spinning step), single flight per step, a failed getter leaves no entry. "
-              "A deterministic scheduler drives the real class at the granularity of its lock blocks and getter steps and the schedule is replayed in the extracted model; a monitor inside the instrumented inner cache checks the property itself.")
+              "corollaries: no partial read, writers exclusive, all locks released when everybody has finished, no deadlock (some caller can always make a non-spinning step), single flight per step, a failed getter leaves no entry; no_caller_waits_for_ever (a potential lowered by every non-spinning step; every round that serves each caller contains one; all finished after at most 8 rounds per pending operation). "
+              "A deterministic scheduler drives the real class at the granularity of its lock blocks and getter steps and the schedule is replayed in the extracted model; a monitor inside the instrumented inner cache checks the property itself; getters interrupted by ordinary errors, KeyboardInterrupt or SystemExit at every point; the lock-table slot computed in interpreters with other hash seeds; two real worker processes asking for one key at once.")
 TRUSTED = ["Coq 8.16.1 kernel (coqc)", "extraction + ocaml/driver.ml", "harness/c19.py (scheduler built on threading.Condition, injected Lock object, patched coba.context.cachers.time.sleep, instrumented inner cacher)",
            "modelled not verified: one slot of the lock table (keys in different slots do not interact); process-level sharing (RawArray + OS lock) is represented by threads; a caller never nests get_set on colliding keys (excluded by the property); "
            "gzip: 'no strict prefix of a complete stream reads to the end without error' is validated by cutting real cache files"]
@@ -38,9 +38,15 @@ class Sched:
                 if not self.cv.wait(self.timeout): raise TimeoutError("caller %d did not come back" % i)
         return True
 
+SPIN = threading.local()
+class BusyWait(Exception): pass
+def counted_sleep(_):
+    """time.sleep inside the co-simulation: the real waits sleep between two visits of the shared lock; a caller that sleeps again and again WITHOUT visiting the lock can never see another caller move"""
+    SPIN.n = getattr(SPIN, "n", 0) + 1
+    if SPIN.n > 20000: raise BusyWait("a caller polls the lock table without taking the shared lock")
 class CtlLock:
     def __init__(self, sched): self.sched = sched
-    def __enter__(self): self.sched.wait_turn(int(threading.current_thread().name)); return self
+    def __enter__(self): SPIN.n = 0; self.sched.wait_turn(int(threading.current_thread().name)); return self
     def __exit__(self, *a): return False
 
 class Inner:
@@ -99,7 +105,7 @@ def run_impl(progs, schedule, nkeys, index_of_key):
         finally:
             sched.done(i)
     old_sleep = cc.time.sleep
-    cc.time.sleep = lambda s: None
+    cc.time.sleep = counted_sleep
     threads = [threading.Thread(target=worker, args=(i,), name=str(i), daemon=True) for i in range(n)]
     snaps = []
     try:
@@ -376,6 +382,7 @@ def run(ctx):
             cases.append(([[("get", 0, True, True), ("rmv", 0, True, True)], [("get", 0, True, True)]], 1, list(sched)))
             cases.append(([[("get", 0, False, True)], [("get", 0, True, True)]], 1, list(sched)))
     for progs, nkeys, grants in cases:
+        if len(ctx.failures) >= 25: break      # enough counterexamples
         check_case(ctx, progs, nkeys, grants, "schedule", reqs)
     # model replay: the getter outcome used at a grant is the outcome of that caller's first unfinished get operation; determine it with a first model pass
     first = ctx.get_model().batch([(19, wire(p, [(i, True) for i in g], nk)) for (_, _, p, g, nk) in reqs])
